@@ -74,7 +74,22 @@ def run(ctx, env):
             if abs(d) > 1e-7 * sc:
                 viol('fixed lookback put - floating lookback call != K df - S dq (K >= Smin)', dict(case0, diff=d,
                      fixed_put=val[('fix', PUT)], float_call=val[('flt', CALL)]), 'lookback-parity')
-    ctx.count('lookbacks equity: fixed/floating x call/put (sign, domination, fixed-floating parity)', n_l * 4, n_l * 4)
+        # Branch identity (exact, from the payoff): for K above the running maximum the payoff max(max(Smax, M_T) - K, 0)
+        # does not depend on Smax, so V(K, Smax) = V(K, Smax := K), which the code computes in its OTHER branch
+        # (K <= Smax); likewise for puts with K below the running minimum.  Ties the K > Smax branch to the parity above.
+        if k > smax:
+            a = float(EquityFixedLookbackOption(ed, CALL, k).value(vd, s, dcv, qcv, v, smax))
+            b = float(EquityFixedLookbackOption(ed, CALL, k).value(vd, max(s, 0.0), dcv, qcv, v, k)) if k >= s else None
+            if b is not None and abs(a - b) > 1e-7 * sc:
+                viol('fixed lookback call with K > Smax differs from the same option valued with running max = K',
+                     dict(case0, value=a, value_with_smax_eq_k=b), 'lookback-branch-identity')
+        if k < smin:
+            a = float(EquityFixedLookbackOption(ed, PUT, k).value(vd, s, dcv, qcv, v, smin))
+            b = float(EquityFixedLookbackOption(ed, PUT, k).value(vd, s, dcv, qcv, v, k)) if k <= s else None
+            if b is not None and abs(a - b) > 1e-7 * sc:
+                viol('fixed lookback put with K < Smin differs from the same option valued with running min = K',
+                     dict(case0, value=a, value_with_smin_eq_k=b), 'lookback-branch-identity')
+    ctx.count('lookbacks equity: fixed/floating x call/put (sign, domination, fixed-floating parity, branch identity)', n_l * 4, n_l * 4)
     # expectation: value_mc with many steps (discretely observed extremum is biased towards smaller payoffs)
     rng = ctx.rng('lookback-mc')
     for i in range(4 if quick else 30):
